@@ -307,6 +307,7 @@ func main() {
 	violations := 0
 	outcomes := map[string]bool{}
 	var printed []string
+	unsound := ""
 	pl := plan(*prop, *tier)
 	if *only != "" {
 		f := strings.Split(*only, "/")
@@ -361,10 +362,33 @@ func main() {
 				violations++
 				printed = append(printed, fmt.Sprintf("VIOLATION property=%s replay=%s", *prop, path))
 				fmt.Fprintf(os.Stderr, "  %s/%s: %s %s: %s (%d events)\n", rn.cfg, rn.menu, f.V.Prop, f.V.Clause, f.V.Detail, len(rf.Events))
+			} else if e.Unsound != "" {
+				continue // found through merged states of a search whose merging is unsound: not believed
 			} else {
 				fmt.Fprintf(os.Stderr, "HARNESS ERROR: violation %v found by the search did not reproduce in the table-free replay (%s)\n", f.V, path)
 				os.Exit(2)
 			}
+		}
+		if e.Unsound != "" {
+			// the code keeps state the canonical dump does not show: no verdict from the merged search; what the diverging
+			// executions themselves violated is still reported if the table-free replay reproduces it
+			info["abstraction_unsound"] = true
+			seenL := map[string]bool{}
+			for _, f := range e.LocalFound {
+				if !cfg.Report[f.V.Prop] && cfg.Report != nil || seenL[f.V.FP()] {
+					continue
+				}
+				seenL[f.V.FP()] = true
+				rf := e.RenderLocalHist(f)
+				path := ev.ReplayPath(*prop, fmt.Sprintf("%s-%s-local-%s", rn.cfg, rn.menu, sanitize(f.V.Clause)))
+				pmc.WriteReplay(path, rf)
+				if doReplay(path, false) == 1 {
+					violations++
+					printed = append(printed, fmt.Sprintf("VIOLATION property=%s replay=%s", *prop, path))
+					fmt.Fprintf(os.Stderr, "  %s/%s (local history, merged search stopped): %s %s: %s\n", rn.cfg, rn.menu, f.V.Prop, f.V.Clause, f.V.Detail)
+				}
+			}
+			unsound = e.Unsound
 		}
 		if len(samples) < 3 && e.States > 1 {
 			samples = append(samples, e.SampleTrace())
@@ -481,6 +505,10 @@ func main() {
 	if violations > 0 {
 		pprof.StopCPUProfile()
 		os.Exit(1)
+	}
+	if unsound != "" { // no reproducible violation, and the merged search cannot be trusted: no verdict
+		fmt.Fprintln(os.Stderr, "HARNESS ERROR:", unsound)
+		os.Exit(2)
 	}
 }
 
